@@ -38,7 +38,7 @@ from harness import core
 ACTIONS = ['AddBase', 'AddLink1', 'AddBuiltinLink', 'AddLink2', 'AddDupBuiltin', 'AddUse', 'AddBuiltinUse', 'AddAny',
            'Finish', 'ValidateDefOk', 'ValidateDefDuplicate', 'ValidateDefBadRef', 'ValidateUseOk',
            'ValidateUseBadRef', 'ValidateActOk', 'ValidateActBadRef', 'ExecDef', 'ExecUse', 'ExecAct']
-INVARIANTS = ['TypeOK', 'VisibleIffDefinedBefore', 'DefinedOnce', 'TypeCheckedTransitively', 'RejectedIffViolation',
+INVARIANTS = ['ReportMatchesWalk', 'TypeOK', 'VisibleIffDefinedBefore', 'DefinedOnce', 'TypeCheckedTransitively', 'RejectedIffViolation',
               'RejectedBeforeExecution', 'ValidationTableCoversExecutionTable', 'AcceptedImpliesResolvable',
               'EveryUseObserved', 'SubstitutionShape']
 ALL_PHASES = ['setup', 'act', 'before-assert', 'assert', 'cleanup']
@@ -284,6 +284,111 @@ def act_instr(task):
     return None
 
 
+def error_clause(task, e):
+    """the reported violation must be ONE of the violations the specification lists for the program"""
+    i = act_instr(task) if e.get('phase') == 'act' else e.get('instr')
+    hit = [v for v in task['viol'] if v['i'] == i]
+    if not hit or e.get('phase') != task['prog'][i - 1]['ph']:
+        return 'ReportedPlace: reported [%s] line %s, violations at %s' % (
+            e.get('phase'), e.get('line'), sorted(v['i'] for v in task['viol']))
+    if e.get('kind') not in hit[0]['kinds'] or e.get('sym') not in hit[0]['syms']:
+        return 'ReportedRule: reported %s of %s, specification %s of %s' % (
+            e.get('kind'), e.get('sym'), sorted(hit[0]['kinds']), sorted(hit[0]['syms']))
+    return None
+
+
+# ------------------------------------------------------------------------------------------------ symbol report
+RE_REPORT = re.compile(r'^(\S+)\s+\((\d+)\) (\S+)$')
+RE_LOC = re.compile(r'^In \[([a-z-]+)\]\n(?:\n*c\.case, line (\d+)\n)?', re.M)
+
+
+def exec_symbol(task, cd):
+    """`exactly symbol c.case`, and for every symbol it lists `symbol c.case NAME` and `symbol c.case NAME --ref`"""
+    from harness import inproc
+    probe = os.path.join(cd.home, 'probe.sh')
+    text, where = concretize(task, probe)
+    cd.write({'c.case': text, 'probe.sh': PROBE_TEXT.replace('{OUT}', cd.out),
+              'lines.txt': ''.join(c + '\n' for c in U)}, mode={'probe.sh': 0o755})
+    act = act_instr(task)
+
+    def locations(out):
+        return [[m.group(1), act if m.group(1) == 'act' and m.group(2) is None else where.get(int(m.group(2) or 0))]
+                for m in RE_LOC.finditer(out)]
+
+    r = inproc.run_main(['symbol', 'c.case'], cd)
+    res = dict(exit=r['exit'], exception=r['exception'], stdout=r['stdout'][:600], stderr=r['stderr'][:900], text=text,
+               verdict=((r['stderr'].splitlines() or [''])[0] if r['exit'] != 0 else 'OK'),
+               sandboxes=len(cd.sandboxes()), out=sorted(os.listdir(cd.out)), listing=None, symbols={})
+    if r['exit'] != 0:
+        err = project_error(r['stderr'])
+        if err['line'] is not None:
+            err['instr'] = where.get(err['line'])
+        res['err'] = err
+        return res
+    listing = []
+    for line in r['stdout'].splitlines():
+        m = RE_REPORT.match(line)
+        listing.append([m.group(3), m.group(1), int(m.group(2))] if m else ['?', line[:80], -1])
+    res['listing'] = listing
+    for name, _, _ in listing:
+        d = inproc.run_main(['symbol', 'c.case', name], cd)
+        f = inproc.run_main(['symbol', 'c.case', name, '--ref'], cd)
+        res['symbols'][name] = dict(def_exit=d['exit'], ref_exit=f['exit'], definition=locations(d['stdout']),
+                                    refs=locations(f['stdout']), def_head=(d['stdout'].splitlines() or [''])[0])
+    res['sandboxes'] = len(cd.sandboxes())
+    res['out'] = sorted(os.listdir(cd.out))
+    return res
+
+
+def judge_symbol(task, o):
+    if o.get('no_termination') or o.get('worker_died') or o.get('harness_exception') or o.get('exception'):
+        return 'Terminates/NoEscapingException'
+    if o['sandboxes'] or o['out']:
+        return 'ReportExecutesNothing: something was executed'
+    if task['outcome'] == 'VALIDATION_ERROR':
+        if o['stdout'].strip():
+            return 'ReportRejected: something was reported on stdout'
+        if o['exit'] != 65 or o['verdict'] != 'VALIDATION_ERROR':
+            return 'ReportRejected: exit %s %r, specification the VALIDATION_ERROR of the run' % (o['exit'], o['verdict'])
+        return error_clause(task, o.get('err') or {})
+    if o['exit'] != 0:
+        return 'ReportAccepted: exit %s %r, specification a report' % (o['exit'], o['verdict'])
+    prog = task['prog']
+    exp = [[CONCRETE[l['name']] if l['name'] != '-' else key_of(l['i']).upper(), l['type'], l['nrefs']]
+           for l in task['report']]
+    if o['listing'] != exp:
+        return 'ReportListing: %s, specification %s' % (o['listing'], exp)
+    for l, refs in zip(exp, task['refsOf']):
+        got = o['symbols'].get(l[0])
+        li = [x for x in task['report'] if (CONCRETE[x['name']] if x['name'] != '-' else key_of(x['i']).upper()) == l[0]][0]
+        if got is None or got['def_exit'] != 0 or got['ref_exit'] != 0:
+            return 'ReportOfSymbol: %s: %s' % (l[0], got)
+        if got['definition'][:1] != [[prog[li['i'] - 1]['ph'], li['i']]]:
+            return 'ReportedDefinition: %s at %s, specification instruction %d' % (l[0], got['definition'][:1], li['i'])
+        want = [[prog[i - 1]['ph'], i] for i in refs]
+        if got['refs'] != want:
+            return 'ReportedReferences: %s at %s, specification %s' % (l[0], got['refs'], want)
+    return None
+
+
+def check_symbol_reports(ctx, tasks, label):
+    with ctx.pool() as pool:
+        obs = pool.map('harness.props.c08:exec_symbol', tasks, deadline=120, chunk=8)
+    bad = 0
+    for t, o in zip(tasks, obs):
+        ctx.count()
+        clause = judge_symbol(t, o)
+        if clause:
+            bad += 1
+            ctx.fail(signature(t, clause), dict(kind='symbol-report', task=t, observed=o, clause=clause))
+    ctx.cov['traces_validated_against_impl'] += len(tasks)
+    ctx.cov.setdefault('replay', {})[label] = dict(
+        cases=len(tasks), accepted=sum(1 for t in tasks if t['outcome'] == 'PASS'), disagreements=bad,
+        symbols_reported=sum(len(t['report']) for t in tasks),
+        references_reported=sum(len(r) for t in tasks for r in t['refsOf']))
+    return obs
+
+
 def judge(task, o):
     """None if the observation is what the specification predicts, else the clause that is broken"""
     if o.get('no_termination') or o.get('worker_died') or o.get('harness_exception') or o.get('exception'):
@@ -294,16 +399,7 @@ def judge(task, o):
                 o['verdict'], o['exit'], task['bad']['kind'], task['bad']['sym'])
         if o['sandboxes'] or o['out'] or o['stdout'].strip():
             return 'RejectedBeforeExecution: something was executed'
-        e = o['err'] or {}
-        i = act_instr(task) if e.get('phase') == 'act' else e.get('instr')
-        hit = [v for v in task['viol'] if v['i'] == i]
-        if not hit or e.get('phase') != task['prog'][i - 1]['ph']:
-            return 'ReportedPlace: reported [%s] line %s, violations at %s' % (
-                e.get('phase'), e.get('line'), sorted(v['i'] for v in task['viol']))
-        if e.get('kind') not in hit[0]['kinds'] or e.get('sym') not in hit[0]['syms']:
-            return 'ReportedRule: reported %s of %s, specification %s of %s' % (
-                e.get('kind'), e.get('sym'), sorted(hit[0]['kinds']), sorted(hit[0]['syms']))
-        return None
+        return error_clause(task, o['err'] or {})
     if o['verdict'] != 'PASS' or o['exit'] != 0:
         return 'Accepted: verdict %r exit %s, specification PASS' % (o['verdict'], o['exit'])
     if not o['sds']:
@@ -333,7 +429,7 @@ def build_tasks(cases):
             continue
         seen.add(k)
         tasks.append(dict(key=k, fam=c['fam'], prog=c['prog'], outcome=c['outcome'], bad=c['bad'], viol=c['viol'],
-                          obs=c['obs']))
+                          obs=c['obs'], report=c.get('report', []), refsOf=c.get('refsOf', [])))
     return tasks
 
 
@@ -505,6 +601,29 @@ def run(ctx):
             raise core.MachineryFailure('export too small: %d cases, %d accepted' % (len(tasks), n_pass))
         negative_controls(ctx, tasks)
         obs = check_tasks(ctx, tasks, 'every program of the model')
+        # the symbol report (`exactly symbol`) of the same programs: listing, definition, references
+        rnd_s = random.Random(ctx.seed + 21)
+        acc = [t for t in tasks if t['outcome'] == 'PASS']
+        rej = [t for t in tasks if t['outcome'] != 'PASS']
+        sym_tasks = (acc if not quick else rnd_s.sample(acc, min(len(acc), 2500))) + \
+            rnd_s.sample(rej, min(len(rej), 800 if quick else 8000))
+        sobs = check_symbol_reports(ctx, sym_tasks, 'symbol report of the programs of the model')
+        # control: a corrupted report must be rejected
+        tried = rej_n = 0
+        for t, o in zip(sym_tasks, sobs):
+            if t['outcome'] != 'PASS' or not t['report'] or judge_symbol(t, o) is not None or tried >= 30:
+                continue
+            o2 = json.loads(json.dumps(o))
+            if tried % 2 == 0:
+                o2['listing'][0][2] += 1
+            else:
+                nm = o2['listing'][-1][0]
+                o2['symbols'][nm]['definition'] = [['setup', 99]]
+            tried += 1
+            rej_n += judge_symbol(t, o2) is not None
+        if tried == 0 or tried != rej_n:
+            raise core.MachineryFailure('symbol report controls: %d of %d rejected' % (rej_n, tried))
+        ctx.cov['negative_controls_rejected'] += rej_n
         res = f_mc.result()
         devs = [f.result() for f in f_dev]
         sim = f_sim.result()
@@ -563,8 +682,23 @@ def run(ctx):
     ]
 
 
+def replay_symbol(ctx, r):
+    with ctx.pool(workers=1) as pool:
+        o = pool.map('harness.props.c08:exec_symbol', [r['task']], deadline=120)[0]
+    clause = judge_symbol(r['task'], o)
+    print(json.dumps(dict(text=o.get('text'), specification=dict(report=r['task']['report'], refs=r['task']['refsOf']),
+                          observed={k: o.get(k) for k in ('exit', 'verdict', 'listing', 'symbols', 'err')},
+                          clause=clause), indent=1))
+    if clause:
+        print('VIOLATION property=C08 replay=(given)')
+        return 1
+    return 0
+
+
 def replay(ctx, rec):
     r = rec['record']
+    if r.get('kind') == 'symbol-report':
+        return replay_symbol(ctx, r)
     with ctx.pool(workers=1) as pool:
         o = pool.map('harness.props.c08:exec_case', [r['task']], deadline=120)[0]
     clause = judge(r['task'], o)
